@@ -2,16 +2,26 @@
 
     Every Go panic site of the transcribed code is an explicit Panic outcome of
     the model (and the model/sqlc correspondence of the query properties compares
-    Panic with a recovered Go panic on every case).  Proved for all inputs: the
-    text-level functions cannot panic — source.Mutate (any text, any edits),
-    source.LineNumber (any text, any offset), source.StripComments,
-    metadata.Parse (any text, any comment syntax) and the result-list reference
-    decision (C10_ref_decision_partial).  Termination of every model function is Coq's
-    own check (structural recursion or explicit fuel).  "All byte strings" pass
-    through two third-party parsers that are not modelled and real non-termination
-    can only be observed with a time limit: that half is carried by the fuzz
-    streams of the check (statement kinds of both engines, mutations, random
-    bytes, file-system faults through the binary). *)
+    Panic with a recovered Go panic on every case).  Proved:
+    - C18_parse_query_partial: the composed parseQuery never panics on a statement
+      whose slice lies inside the file and whose (rewritten) tree has the shape the
+      parsers produce (Model/Shape.v shape_ok, inserts_ok - evaluated on every tree
+      the real parsers return in the C03 check) - for every catalog and every such
+      tree, sub-selects and set operations at any depth;
+    - its parts, each for ALL inputs or all well-shaped trees: C18_output_columns_partial,
+      C18_find_parameters_partial, C18_resolve_partial (resolveCatalogRefs: no shape
+      hypothesis at all), C18_to_column_partial, C18_mutate_partial,
+      C18_line_number_partial, C18_meta_partial, C18_strip_comments_partial;
+    - C18_panic_sources_partial: without the shape hypotheses, where a panic can come from;
+    - C18_refuted_on_malformed_tree: the hypothesis is needed (a hand-made tree no
+      parser produces).
+    Termination of every model function is Coq's own check (structural recursion or
+    explicit fuel).  "All byte strings" pass through two third-party parsers and
+    their converters, which are not modelled, and real non-termination can only be
+    observed with a time limit: that half is carried by the streams of the check
+    (statement kinds of both engines, over-qualified names, mutations, random bytes,
+    configuration sweeps, file-system faults through the binary).  Two panics of the
+    pinned tree were found that way in the last round and repaired (e5e80a8, cb978d6). *)
 From Verif Require Import Model.Compile Proofs.NoPanicFacts Proofs.ResolveNoPanic Proofs.PanicSources Proofs.FindParamsNoPanic Model.Shape Proofs.WalkersNoPanic Proofs.ComposedNoPanic.
 Open Scope string_scope.
 Open Scope list_scope.
